@@ -155,3 +155,21 @@ pub(crate) fn verif_get_range_of_extraction(
 ) -> Range {
     get_range_of_extraction(extraction, content)
 }
+
+/// Visibility-only hook for /verif: the formatter's output for one iso literal text.
+#[cfg(isographlabs_isograph_verif)]
+pub(crate) fn verif_format_literal<TCompilationProfile: CompilationProfile>(
+    db: &IsographDatabase<TCompilationProfile>,
+    iso_literal_text: &str,
+    relative_path_to_source_file: RelativePathToSourceFile,
+) -> Option<String> {
+    // as if written `export const x = iso(`..`)(fn)`
+    let extraction = IsoLiteralExtraction {
+        const_export_name: Some("x".to_string()),
+        iso_literal_text: iso_literal_text.to_string(),
+        iso_literal_start_index: 0,
+        has_associated_js_function: true,
+        iso_function_called_with_paren: true,
+    };
+    format_extraction(db, &extraction, relative_path_to_source_file).to_owned()
+}
